@@ -105,7 +105,7 @@ def advance (heads : List (List ImmEnt)) : Nat → Nat → Nat
 /-- `events_immediate_get()` -/
 def immGet (e : Ev) (m : Mem) : Option ImmEnt × Ev × Mem :=
   let q := advance e.heads 33 e.minq
-  match heads? : e.heads[q]? with
+  match e.heads[q]? with
   | some (ent :: rest) =>
     if q < 32 then
       match MPool.free e.qPool ent.qid m with
